@@ -67,9 +67,8 @@ func checkC19(c *Ctx) {
 	c.Assume("A2: the external callees listed under lists.external_callees are goroutine-safe as documented (no unsynchronised hidden state)")
 	c.Assume("A3: user callbacks (FilterTag, Pre/Post, custom child functions, io.Writer, io.Reader, ReferenceMatcher) are the caller's responsibility")
 	c.Assume("A4: a BlockParser / InlineParser.ReferenceMatcher is not shared between goroutines (not part of the property)")
-	c.MinCount("EFF-G", 150)
-	c.MinCount("EFF-R", 40)
-	c.MinCount("EFF-U", 3)
+	c.MinCount("EFF-G", 50)
+	c.MinCount("EFF-R", 20)
 }
 
 func effRules(c *Ctx) {
